@@ -51,7 +51,7 @@ class Choice:
         return seq[self.idx % len(seq)]
 
 
-def run(alg_i, ser, payload, kid_mode, keyform, pick, b64, extra_typ, unprot_kid, two_pick=0):
+def run(alg_i, ser, payload, kid_mode, keyform, pick, b64, extra_typ, unprot_kid, two_pick=0, prot_mode=0):
     """-> (env, produced, obj or exception, expectation dict)"""
     name = ALGS[alg_i]
     alg = name.split("/")[0]
@@ -77,6 +77,10 @@ def run(alg_i, ser, payload, kid_mode, keyform, pick, b64, extra_typ, unprot_kid
         sset = KeySet(ks)
         vset = KeySet([public_of(k) for k in ks])
         skey, vkey = (sset, vset) if keyform == 1 else ((lambda o: sset), (lambda o: vset))
+    if prot_mode and ser != 0:
+        # everything in the unprotected header; the protected header is an empty object (1) or absent (2)
+        unprot = {**hdr, **unprot}
+        hdr = {} if prot_mode == 1 else None
     given_hdr, given_unprot = ice.jcopy(hdr), ice.jcopy(unprot)
     use7797 = b64 is not None
     with env.installed([(random, "choice", choice)]):
@@ -84,12 +88,12 @@ def run(alg_i, ser, payload, kid_mode, keyform, pick, b64, extra_typ, unprot_kid
             if ser == 0:
                 tok = (s7797_compact if use7797 else jws.serialize_compact)(hdr, payload, skey, algorithms=[alg])
             elif ser == 1:
-                member = {"protected": hdr}
+                member = {"protected": hdr} if hdr is not None else {}
                 if unprot:
                     member["header"] = unprot
                 tok = (s7797_json if use7797 else jws.serialize_json)(member, payload, skey, algorithms=[alg])
             else:
-                members = [{"protected": hdr, **({"header": unprot} if unprot else {})}]
+                members = [{**({"protected": hdr} if hdr is not None else {}), **({"header": unprot} if unprot else {})}]
                 if ser == 3:
                     members.append({"protected": {"alg": alg, "typ": "second"}})
                 tok = jws.serialize_json(members, payload, skey, algorithms=[alg])
@@ -147,11 +151,11 @@ def judge(env, tok, obj, exp, alg_i, ser, payload, kid_mode, keyform, b64):
             return False
     else:
         m = obj.members[0]
-        want = dict(exp["hdr"])
+        want = dict(exp["hdr"] or {})
         want.update(exp["unprot"])
         if want_kid and "kid" not in want:
             want["kid"] = want_kid
-        if m.headers() != want or (m.protected or {}) != exp["hdr"]:
+        if m.headers() != want or (m.protected or {}) != (exp["hdr"] or {}):
             return False
     # operands: what was signed is what was verified, with the RFC's parameters, by the signer's key
     if alg.startswith("HS"):
@@ -176,9 +180,9 @@ def judge(env, tok, obj, exp, alg_i, ser, payload, kid_mode, keyform, b64):
     return True
 
 
-def _rt(alg_i, ser, payload, kid_mode, keyform, pick, extra_typ, unprot_kid):
+def _rt(alg_i, ser, payload, kid_mode, keyform, pick, extra_typ, unprot_kid, prot_mode=0):
     rt.tick()
-    env, tok, obj, exp = run(alg_i, ser, payload, kid_mode, keyform, pick, None, extra_typ, unprot_kid)
+    env, tok, obj, exp = run(alg_i, ser, payload, kid_mode, keyform, pick, None, extra_typ, unprot_kid, 0, prot_mode)
     if tok is None:
         return False
     return judge(env, tok, obj, exp, alg_i, ser, payload, kid_mode, keyform, None)
@@ -192,9 +196,25 @@ def roundtrip(alg_i: int, ser: int, payload: bytes, kid_mode: int, keyform: int,
     return _rt(alg_i, ser, payload, kid_mode, keyform, pick, extra_typ, unprot_kid)
 
 
+def roundtrip_layout(alg_i: int, ser: int, payload: bytes, kid_mode: int, extra_typ: bool, unprot_kid: bool, prot_mode: int) -> bool:
+    """
+    PRE: 0 <= alg_i < 15 and 0 <= ser <= 3 and len(payload) <= 2 and 0 <= kid_mode <= 1 and 0 <= prot_mode <= 2
+    POST: _
+    """
+    return _rt(alg_i, ser, payload, kid_mode, 0, 0, extra_typ, unprot_kid, prot_mode)
+
+
+def roundtrip_keys(alg_i: int, ser: int, kid_mode: int, keyform: int, pick: int) -> bool:
+    """
+    PRE: 0 <= alg_i < 15 and 0 <= ser <= 3 and 0 <= kid_mode <= 1 and 1 <= keyform <= 2 and 0 <= pick <= 1
+    POST: _
+    """
+    return _rt(alg_i, ser, b"pl", kid_mode, keyform, pick, False, False)
+
+
 def roundtrip_text(alg_i: int, ser: int, payload: str, keyform: int, pick: int) -> bool:
     """
-    PRE: 0 <= alg_i < 15 and 0 <= ser <= 3 and len(payload) <= 2 and 0 <= keyform <= 2 and 0 <= pick <= 1
+    PRE: 0 <= alg_i < 15 and 0 <= ser <= 3 and len(payload) <= 2 and keyform == 0 and pick == 0
     POST: _
     """
     return _rt(alg_i, ser, payload, 0, keyform, pick, False, False)
@@ -284,8 +304,14 @@ def replay(func, call):
     args = eval("(" + call + ",)")
     b64 = None
     extra_typ = unprot_kid = False
-    kid_mode = 0
-    if func == "roundtrip":
+    kid_mode = prot_mode = 0
+    if func == "roundtrip_layout":
+        alg_i, ser, payload, kid_mode, extra_typ, unprot_kid, prot_mode = args
+        keyform, pick, func = 0, 0, "roundtrip"
+    elif func == "roundtrip_keys":
+        alg_i, ser, kid_mode, keyform, pick = args
+        payload, func = b"pl", "roundtrip"
+    elif func == "roundtrip":
         alg_i, ser, payload, kid_mode, keyform, pick, extra_typ, unprot_kid = args
     elif func == "roundtrip_text":
         alg_i, ser, payload, keyform, pick = args
@@ -317,7 +343,10 @@ def replay(func, call):
         unprot = {}
         if kid_mode == 1:
             (unprot if (unprot_kid and ser != 0) else hdr)["kid"] = "k2"
-        given = dict(hdr)
+        if prot_mode and ser != 0:
+            unprot = {**hdr, **unprot}
+            hdr = {} if prot_mode == 1 else None
+        given = dict(hdr or {})
         if keyform == 0:
             skey, vkey = (privs[1], pubs[1]) if kid_mode == 1 else (privs[0], pubs[0])
         else:
@@ -348,7 +377,7 @@ def replay(func, call):
                 obj = d7797_compact(tok, vkey, pl, algorithms=[alg]) if use7797 else jws.deserialize_compact(tok, vkey, algorithms=[alg])
                 got_hdr = obj.protected
             else:
-                member = {"protected": hdr, **({"header": unprot} if unprot else {})}
+                member = {**({"protected": hdr} if hdr is not None else {}), **({"header": unprot} if unprot else {})}
                 if ser == 1:
                     tok = (s7797_json if use7797 else jws.serialize_json)(member, payload, skey, algorithms=[alg])
                     obj = (d7797_json if use7797 else jws.deserialize_json)(tok, vkey, algorithms=[alg])
